@@ -238,7 +238,8 @@ NOT_BUILT_REASON = "not built yet in this round (planned, see DESIGN.md section 
 NOT_APPLICABLE = {}
 
 # builder-delivered checks are only claimed once reviewed and listed here
-READY = {"C27", "C10", "C11", "C14", "C28", "C20", "C23", "C13", "C12", "C29", "C06", "C07", "C25", "C26"}
+READY = {"C27", "C10", "C11", "C14", "C28", "C20", "C23", "C13", "C12", "C29", "C06", "C07", "C25", "C26", "C15", "C21",
+         "C31", "C09"}
 
 
 def _load_from_notes() -> None:
